@@ -143,3 +143,19 @@ Definition zero_slack : slack := Slack 0 0 0 0.
 (** what an observer sees of a run of the model *)
 Definition obs_of (e : env) (r : run) : obs :=
   Obs (r_trace r) (r_out r) (r_tret r) (e_cancel e) (e_cancel e).
+
+(** ** retries made although the context had certainly ended before the select was entered:
+    re-invocations whose previous attempt ended after cancel() had returned.  At most [K] are
+    tolerated (each is a select race lost to a ready timer, probability <= 1/2 each) *)
+Fixpoint late_count (tc prev : Z) (evs : list event) : nat :=
+  match evs with
+  | ECall _ ts te :: r => (if tc <=? prev then 1 else 0) + late_count tc te r
+  | _ :: r => late_count tc prev r
+  | [] => O
+  end.
+Definition late_retries (o : obs) : nat :=
+  match o_cpost o, o_trace o with
+  | Some tc, ECall _ _ te :: rest => late_count tc te rest
+  | _, _ => O
+  end.
+Definition late_ok (K : nat) (o : obs) : bool := (late_retries o <=? K)%nat.
